@@ -5,6 +5,7 @@
 -/
 import PiqpModel.LinAlg
 import PiqpModel.Csc
+import PiqpModel.SparseLdl
 import PiqpModel.Driver.Parse
 
 namespace Piqp.Driver
@@ -155,6 +156,35 @@ def ldlStep (cmd : String) : P (List String) := do
     let A : Csc QQ := Csc.ofOpt r c entA
     let C : Csc QQ := Csc.ofOpt r2 c2 entC
     pure [s!"istp {if Csc.isTransposePattern A C then 1 else 0}"]
+  | "csc.ldl" =>
+    -- storage level: every array of the sparse LDLt object after the symbolic and the numeric phase, and one solve
+    let n ← nat
+    let _c ← nat
+    let ent0 ← dotsOpt n n
+    let b ← qqArray n
+    -- only the upper triangle is stored
+    let ent : Array (Option QQ) := Array.ofFn (n := n * n) fun t => if t.val / n ≤ t.val % n then ent0.getD t.val none else none
+    let A : Csc QQ := Csc.ofOpt n n ent
+    let s0 := SparseLdl.symbolic A
+    let etStr := " ".intercalate (s0.etree.toList.map fun o => match o with | some v => toString v | none => "-1")
+    let head := [s!"etree {etStr}", s!"lcols {natsStr s0.Lcols}", s!"lnnz0 {natsStr s0.Lnnz}"]
+    let (s1, ret) := SparseLdl.numeric A s0
+    let filled (s : SparseLdl QQ) : String := " ".intercalate ((List.range n).map fun j =>
+      " ".intercalate ((List.range' (s.Lcols.getD j 0) (s.Lnnz.getD j 0)).map fun p => s!"{s.Lind.getD p 0}:{s.Lvals.getD p 0}"))
+    let dStr := qqsStr (s1.D.extract 0 (if ret < n then ret + 1 else n))
+    if ret = n then
+      -- certificate for `ldlt_unique`: the stored factors are unit lower / zero-free and reproduce A exactly
+      let lrow (i k : Nat) : QQ := if k < i then SparseLdl.lGet s1 i k else if k = i then 1 else 0
+      let aSym (i j : Nat) : QQ := ((ent.getD ((min i j) * n + max i j) none).getD 0)
+      let prodOk := (List.range n).all fun i => (List.range n).all fun j =>
+        (List.range n).foldl (fun acc k => acc + lrow i k * s1.D.getD k 0 * lrow j k) 0 == aSym i j
+      let lowerOk := (List.range n).all fun j => (List.range' (s1.Lcols.getD j 0) (s1.Lnnz.getD j 0)).all fun p => decide (j < s1.Lind.getD p 0)
+      let dOk := (List.range n).all fun k => !(s1.D.getD k 0 == 0)
+      pure (head ++ [s!"ret {ret}", s!"lnnz {natsStr s1.Lnnz}", s!"lfill {filled s1}", s!"dd {dStr}", s!"xs {qqsStr (SparseLdl.solve s1 b)}",
+        s!"ldlcert {if prodOk && lowerOk && dOk then 1 else 0}"])
+    else
+      -- after a zero pivot the columns not yet reached hold the symbolic counts over unwritten storage: only D[0..k] is defined
+      pure (head ++ [s!"ret {ret}", s!"dd {dStr}"])
   | "ord.amd" =>
     -- Eigen's AMD is not modelled: only "returns a permutation whose inverse table and perm/permt are consistent"
     pure ["isperm 1 inv 1 roundtrip 1"]
